@@ -84,24 +84,29 @@ def roundMag (F : Ieee) (a : Nat) (e : Int) : Rounded :=
   let den := if q ≤ e then 1 else 2 ^ (q - e).toNat
   ⟨q, rneDiv num den, num, den⟩
 
+/-- sign of `n·den − num` as a flag -/
+def flagOf (n den num : Nat) : Flag :=
+  if n * den = num then .exact else if num < n * den then .pos else .neg
+
+/-- SPEC on magnitudes (`a > 0`): bit pattern (without sign bit) of `RN_even(a·2^e)` and the sign of
+    `result − a·2^e`. -/
+def ieeeRoundMag (F : Ieee) (a : Nat) (e : Int) : Nat × Flag :=
+  let r := roundMag F a e
+  -- the result n·2^q in units of the least subnormal 2^qmin
+  let units := r.n * 2 ^ (r.q - F.qmin).toNat
+  if 2 ^ (F.emax + 1 - F.qmin).toNat ≤ units then
+    -- the magnitude rounds to at least 2^(emax+1): infinity, which is above every real
+    (F.infBits, .pos)
+  else
+    -- finite: field encoding of n·2^q; `decode_fieldBits` (Proofs) shows it denotes exactly n·2^q
+    ((r.q - F.qmin).toNat * 2 ^ F.MB + r.n, flagOf r.n r.den r.num)
+
 /-- SPEC of `encode`: the bit pattern of `RN_even(m·2^e)` and the sign of `result − m·2^e`.
     Zero maps to `+0` (as `encode` documents: `Exact(0)`). -/
 def ieeeRound (F : Ieee) (m e : Int) : Nat × Flag :=
   if m = 0 then (0, .exact) else
-  let neg := decide (m < 0)
-  let r := roundMag F m.natAbs e
-  -- in units of the least subnormal
-  let units := r.n * 2 ^ (r.q - F.qmin).toNat
-  let s := if neg then F.signBit else 0
-  if 2 ^ (F.emax + 1 - F.qmin).toNat ≤ units then
-    -- magnitude rounds to at least 2^(emax+1): infinity, which is above every real
-    (s + F.infBits, Flag.flipIf .pos neg)
-  else
-    -- finite: field encoding of n·2^q; `decode_toBits` (Proofs) shows it denotes exactly that value
-    let bits := (r.q - F.qmin).toNat * 2 ^ F.MB + r.n
-    let fl := match compare (r.n * r.den) r.num with
-      | .eq => Flag.exact | .gt => Flag.pos | .lt => Flag.neg
-    (s + bits, fl.flipIf neg)
+  let r := ieeeRoundMag F m.natAbs e
+  ((if m < 0 then F.signBit else 0) + r.1, r.2.flipIf (decide (m < 0)))
 
 /-! ## Model of the code -/
 
